@@ -123,7 +123,7 @@ theorem logExt_ok (env : Env) : RelOK env LogExt where
   refl := LogExt.refl
   trans := LogExt.trans
   put := logExt_prim.put
-  ev := fun s e _ => ⟨[e], rfl⟩
+  ev := fun s g _ => ⟨[Ev.ghost g], rfl⟩
   leaf := leafNew_prim logExt_prim
   comment := commentNew_prim logExt_prim.toPrimOK0
   directive := directiveNew_prim logExt_prim.toPrimOK0
@@ -270,7 +270,7 @@ theorem scopeR_ok (env : Env) : RelOK env ScopeR where
   refl := ScopeR.refl
   trans := ScopeR.trans
   put := scopeR_prim.put
-  ev := fun s e _ => ⟨⟨[e], rfl⟩, fun _ => rfl⟩
+  ev := fun s g _ => ⟨⟨[Ev.ghost g], rfl⟩, fun _ => rfl⟩
   leaf := leafNew_prim scopeR_prim
   comment := commentNew_prim scopeR_prim.toPrimOK0
   directive := directiveNew_prim scopeR_prim.toPrimOK0
@@ -627,13 +627,10 @@ theorem seqR_ok (env : Env) (hq : env.tbl.quirks.seqRestores = true) : RelOK env
   refl := fun _ => rfl
   trans := fun h1 h2 => by unfold SeqR at *; rw [h2, h1]
   put := seqR_prim.put
-  ev := fun s e he => by
+  ev := fun s g he => by
     apply SD_ev_other
-    cases e with
-    | ghost g =>
-      cases g with
-      | seqDrop => have := he rfl; rw [hq] at this; cases this
-      | _ => rfl
+    cases g with
+    | seqDrop => have := he rfl; rw [hq] at this; cases this
     | _ => rfl
   leaf := leafNew_prim seqR_prim
   comment := commentNew_prim seqR_prim.toPrimOK0
@@ -713,6 +710,127 @@ theorem sufR_ok (env : Env) : RelOK env SufR where
     have hl : s.sym.stack.length = s.sym.chain.length := by simp [SymTabs.chain]
     show (s'.sym.rollback s.sym.topNames s.sym.stack.length).chain = [] ++ s.sym.chain
     rw [hl, SymTabs.rollback_chain _ _ extra _ he]; rfl
+  enter_exit_ok := trivial
+
+/-! ## cost: string-level parses are bounded by item reads -/
+
+def isQuery : Ev → Bool
+  | .query .. => true
+  | _ => false
+def isGet : Ev → Bool
+  | .get _ => true
+  | _ => false
+
+/-- number of `item.parse_line` calls (cache hits included) -/
+def NQ (s : St) : Nat := (s.log.filter isQuery).length
+/-- number of `reader.get_item()` / `reader.next()` calls -/
+def NG (s : St) : Nat := (s.log.filter isGet).length
+
+/-- every `parse_line` is preceded by its own `get_item` -/
+def CostR (s s' : St) : Prop := NQ s' + NG s ≤ NG s' + NQ s
+
+theorem NQ_ev (s : St) (e : Ev) : NQ (s.ev e) = NQ s + (if isQuery e then 1 else 0) := by
+  simp only [NQ, St.ev, List.filter_cons]; split <;> simp
+theorem NG_ev (s : St) (e : Ev) : NG (s.ev e) = NG s + (if isGet e then 1 else 0) := by
+  simp only [NG, St.ev, List.filter_cons]; split <;> simp
+
+theorem costR_refl (s : St) : CostR s s := by unfold CostR; omega
+theorem costR_trans {a b c : St} (h1 : CostR a b) (h2 : CostR b c) : CostR a c := by
+  unfold CostR at *; omega
+
+/-- steps that log neither a query nor a get -/
+theorem costR_quiet {s s' : St} (hq : NQ s' = NQ s) (hg : NG s' = NG s) : CostR s s' := by
+  unfold CostR; omega
+
+theorem NQ_put (s : St) (x : Item) : NQ (s.put x) = NQ s := by
+  simp [NQ, St.put, List.filter_cons, isQuery]
+theorem NG_put (s : St) (x : Item) : NG (s.put x) = NG s := by
+  simp [NG, St.put, List.filter_cons, isGet]
+theorem NQ_get (s : St) : NQ s.get.2 = NQ s := by
+  simp [NQ, St.get, List.filter_cons, isQuery]
+theorem NG_get (s : St) : NG s.get.2 = NG s + 1 := by
+  simp [NG, St.get, List.filter_cons, isGet]
+
+theorem costR_get_then {s s1 s' : St} {o : Option Item} (hg : s.get = (o, s1))
+    (hq : NQ s' ≤ NQ s1 + 1) (hgg : NG s' = NG s1) : CostR s s' := by
+  have e1 : s1 = s.get.2 := by rw [hg]
+  have h1 := NQ_get s; have h2 := NG_get s
+  rw [← e1] at h1 h2
+  unfold CostR; omega
+
+theorem costR_ok (env : Env) : RelOK env CostR where
+  refl := costR_refl
+  trans := costR_trans
+  put := fun s x => costR_quiet (NQ_put s x) (NG_put s x)
+  ev := fun s g _ => costR_quiet (by simp [NQ_ev, isQuery]) (by simp [NG_ev, isGet])
+  leaf := fun c pc s => by
+    unfold leafNew
+    split
+    · rename_i s1 hg
+      exact costR_get_then hg (by dsimp only; omega) rfl
+    · rename_i it s1 hg
+      split
+      · exact costR_get_then hg (by dsimp only; rw [NQ_put]; omega) (NG_put _ _)
+      · simp only
+        have hq : NQ (s1.ev (.query it.id c)) = NQ s1 + 1 := by simp [NQ_ev, isQuery]
+        have hgq : NG (s1.ev (.query it.id c)) = NG s1 := by simp [NG_ev, isGet]
+        split
+        · split
+          · exact costR_get_then hg (by dsimp only; omega) hgq
+          · exact costR_get_then hg (by dsimp only; rw [NQ_put]; omega) (by rw [NG_put]; exact hgq)
+        · split
+          · exact costR_get_then hg (Nat.le_of_eq hq) hgq
+          · exact costR_get_then hg (by rw [NQ_put]; exact Nat.le_of_eq hq)
+              (by rw [NG_put]; exact hgq)
+          · exact costR_get_then hg (by rw [NQ_put]; exact Nat.le_of_eq hq)
+              (by rw [NG_put]; exact hgq)
+          · exact costR_get_then hg (Nat.le_of_eq hq) hgq
+  comment := fun s => by
+    unfold commentNew
+    split
+    · rename_i s1 hg; exact costR_get_then hg (by dsimp only; omega) rfl
+    · rename_i it s1 hg
+      split
+      · exact costR_get_then hg (by dsimp only; omega) rfl
+      · exact costR_get_then hg (by dsimp only; rw [NQ_put]; omega) (NG_put _ _)
+  directive := fun s => by
+    unfold directiveNew
+    split
+    · rename_i s1 hg; exact costR_get_then hg (by dsimp only; omega) rfl
+    · rename_i it s1 hg
+      split
+      · split
+        · exact costR_get_then hg (by dsimp only; omega) rfl
+        · exact costR_get_then hg (by dsimp only; rw [NQ_put]; omega) (NG_put _ _)
+      · exact costR_get_then hg (by dsimp only; rw [NQ_put]; omega) (NG_put _ _)
+  peek := fun s => by
+    split
+    · rename_i it s1 hg; exact costR_get_then hg (by rw [NQ_put]; omega) (NG_put _ _)
+    · rename_i s1 hg; exact costR_get_then hg (by omega) rfl
+  remove := fun s n => costR_quiet (by simp [NQ, List.filter_cons, isQuery])
+    (by simp [NG, List.filter_cons, isGet])
+  exit := fun s n s' h => by
+    have a : NQ s'.exit.2 = NQ s' := by simp [NQ, List.filter_cons, isQuery]
+    have b : NG s'.exit.2 = NG s' := by simp [NG, List.filter_cons, isGet]
+    have c : NQ (s.enter n) = NQ s := by simp [NQ, St.enter, List.filter_cons, isQuery]
+    have d : NG (s.enter n) = NG s := by simp [NG, St.enter, List.filter_cons, isGet]
+    unfold CostR at *; omega
+  leak := fun s n s' g _ h => by
+    have a : NQ (s'.ev (.ghost g)) = NQ s' := by simp [NQ_ev, isQuery]
+    have b : NG (s'.ev (.ghost g)) = NG s' := by simp [NG_ev, isGet]
+    have c : NQ (s.enter n) = NQ s := by simp [NQ, St.enter, List.filter_cons, isQuery]
+    have d : NG (s.enter n) = NG s := by simp [NG, St.enter, List.filter_cons, isGet]
+    unfold CostR at *; omega
+  empty := fun s s' h => by
+    have c : NQ ((s.enter 0).ev (.ghost .emptyScopeName)) = NQ s := by
+      simp [NQ, St.enter, St.ev, List.filter_cons, isQuery]
+    have d : NG ((s.enter 0).ev (.ghost .emptyScopeName)) = NG s := by
+      simp [NG, St.enter, St.ev, List.filter_cons, isGet]
+    unfold CostR at *; omega
+  rollback := fun s s' h => by
+    have a : NQ (St.rollback s s') = NQ s' := by simp [NQ, List.filter_cons, isQuery]
+    have b : NG (St.rollback s s') = NG s' := by simp [NG, List.filter_cons, isGet]
+    unfold CostR at *; omega
   enter_exit_ok := trivial
 
 end Fp.Block
